@@ -133,7 +133,7 @@ SPEC = {
     "theorems": [T + n for n in [
         "source_shape_as_modelled", "descriptor_tables_agree", "register_class_of_descriptor", "msl_entry_names_agree",
         "annot_matches_meta_hlsl", "annot_matches_meta_msl", "static_object_entry_without_annotation",
-        "descriptor_kind_count", "meta_bijective_hlsl", "meta_bijective_msl", "msl_sort_keeps_sorted",
+        "descriptor_kind_count", "meta_bijective_hlsl", "meta_bijective_msl", "meta_bijective_msl_exact", "msl_sort_keeps_sorted",
         "excluded_declarations", "used_sound_complete_partial", "used_flag",
         "hlsl_params_of_targets", "hlsl_annotations_total", "annot_iff_entry", "annotations_match_metadata_hlsl",
         "entry_named_and_defined", "entry_named_and_defined_needs_name_kept"]],
@@ -160,7 +160,7 @@ SPEC = {
                   "(register / vk::binding / vk::offset / id) reads back, character by character, to exactly the bind group, "
                   "slot or inline offset and register class of the declaration's metadata entry (both are projections of one "
                   "api_slot); per bind group the entries are exactly the externally bound declarations, same names, same "
-                  "order (Metal: up to its sort, which keeps sorted input); annotations and entries line up one to one for "
+                  "order (on Metal too: its per-group sort is the identity on the allocator's output, by C06's tiling theorem); annotations and entries line up one to one for "
                   "modules without static object globals and the printers cannot panic on the allocator's output; descriptor "
                   "type and count depend only on declared kind and array layer; the usage fixed point equals call-graph "
                   "reachability, so is_used on Metal holds iff some stage entry point reaches the global (HLSL always reports "
